@@ -62,12 +62,18 @@ class PlainName:
                 f"Resolving obj crossref: {obj_ref.cls}:{obj_ref.obj_name}"
             )
 
+        # Abstract rules may reference each other in a cycle.
+        visited = set()
+
         def _inner_resolve_link_rule_ref(cls, obj_name):
             """
             Depth-first resolving of link rule reference.
             """
             if cls._tx_type is RULE_ABSTRACT:
+                visited.add(id(cls))
                 for inherited in cls._tx_inh_by:
+                    if id(inherited) in visited:
+                        continue
                     result = _inner_resolve_link_rule_ref(inherited, obj_name)
                     if result:
                         return result
